@@ -25,11 +25,32 @@ class Obligation:
     def formula(self):
         return z3.And(*self.hyps, z3.Not(self.goal)) if self.hyps else z3.Not(self.goal)
 
-    def smt2(self):
+    def smt2(self, variant="all"):
+        """variant: 'all' hypotheses, or a sound weakening (fewer hypotheses): 'recent' = global axioms + the most recent
+        facts, 'entry+recent' = global axioms + the function-entry block + the most recent facts"""
         s = z3.Solver()
-        s.add(*self.hyps)
+        s.add(*self.select(variant))
         s.add(z3.Not(self.goal))
         return s.to_smt2()
+
+    RECENT = 34
+
+    def select(self, variant):
+        g, e = getattr(self, "n_global", 0), getattr(self, "entry_len", 0)
+        h = self.hyps
+        w = self.RECENT
+        if variant.startswith("recent:"):
+            w = int(variant.split(":")[1])
+            variant = "recent"
+        if variant == "all" or len(h) <= g + w:
+            return h
+        tail = h[max(g, len(h) - w):]
+        if variant == "recent":
+            return h[:g] + tail
+        if variant == "entry+recent":
+            cut = max(g + e, len(h) - self.RECENT)
+            return h[:g + e] + h[cut:]
+        return h
 
 
 class State:
@@ -234,6 +255,7 @@ class Engine:
         for cl in c.requires:
             st.assume(self.spec(cl, st))
         self.canary_points.append((f"{self.short}/canary/entry", list(st.pc)))
+        self.entry_len = len(st.pc)
         for lem in c.lemmas:
             self.prove_lemma(lem, st)
             st.assume(self.lemma_statement(lem, st))
@@ -256,10 +278,13 @@ class Engine:
             else:
                 raise EngineError(f"{o.kind} outside a loop")
         # contract hygiene: every loop spec and hook must have bound to something
+        for o in self.obls:
+            o.entry_len = getattr(self, "entry_len", 0)
         if getattr(self, "psum_used", False):
             # prefix-sum axioms (quantified over arrays) only where np.sum / psum is used: quantifier-free VCs stay decidable
             for o in self.obls:
                 o.hyps = list(self.global_axioms) + o.hyps
+                o.n_global = len(self.global_axioms)
             self.canary_points = [(n, list(self.global_axioms) + h) for n, h in self.canary_points]
         for lab in c.loops:
             if lab not in self.loop_seen:
@@ -494,6 +519,15 @@ class Engine:
         return outs
 
     def exec_ghost(self, text, st):
+        if text.startswith("model_inv "):
+            # the library's own representation invariant (strictly increasing enumeration onto the members): part of the
+            # trusted sorted-container model, usable at any program point; nothing else may be assumed this way
+            node = ast.parse(text[len("model_inv "):].strip(), mode="eval").body
+            if not (isinstance(node, ast.Call) and isinstance(node.func, ast.Name) and node.func.id in ("wfmap", "wfset", "wfcats")):
+                raise EngineError("model_inv accepts only wfmap(..) / wfset(..) / wfcats(..)")
+            st.assume(self.ev(node, st, True))
+            self.used_models.add("model:sortedcontainers enumeration invariant assumed at a program point (model_inv)")
+            return
         if text.startswith("assert "):
             cl = Clause(text[len("assert "):])
             g = self.spec(cl, st)
@@ -1855,6 +1889,15 @@ class Engine:
                 continue
             break
         b = self.truthy(self.ev(body, st2, True), st2)
+        if name == "forall" and not pats:
+            # a universally quantified body (typically a macro expansion) is pulled into the same binder list
+            while z3.is_quantifier(b) and b.is_forall() and b.num_patterns() == 0:
+                inner = [V.fresh(b.var_name(i), b.var_sort(i)) for i in range(b.num_vars())]
+                bound += inner
+                b = z3.substitute_vars(b.body(), *reversed(inner))
+                if z3.is_implies(b):
+                    guards.append(b.arg(0))
+                    b = b.arg(1)
         zp = []
         for kind, p in pats:
             if kind == "multi":
